@@ -73,7 +73,8 @@ def defaultSiteSafe (name : String) : Bool :=
 /-- "no shared mutable default" restated over the ENUMERATION: every parameter of every live function whose default value
     is a list / dict / set / bytearray has a site of a default-argument kind in the table, and that site is safe (copied
     or guarded by the constructor, only read, or a constant table shared by design) - unless it is named in one of the
-    two exclusion lists `contractMutators` / `knownUnsafe` (none is, `no_default_is_excluded`) -/
+    two exclusion lists `contractMutators` / `knownUnsafe` (none is, `no_default_is_excluded`; `knownUnsafe` is empty
+    since D31 was repaired, `knownUnsafe_is_empty`) -/
 theorem every_mutable_default_has_a_safe_site :
     (mutableDefaults.all fun n => defaultSiteSafe n || contractMutators.contains n || knownUnsafe.contains n) = true := by
   decide +kernel
@@ -101,10 +102,10 @@ theorem site_names_distinct :
       ∧ noDupNames (Gen.Alias.memoKeys.map (·.1)) = true := by decide +kernel
 
 /-- the exact exclusion list (`C19X.unsafe_sites_exactly`) together with the lower bounds: the unsafe rows of the table
-    are exactly the two named lists, AND the table is complete for the enumeration, so "everything else is safe" speaks
+    are exactly the contract mutators (no recorded defect is excused any more: D31 is repaired, round 6), AND the table is complete for the enumeration, so "everything else is safe" speaks
     about every live function's defaults and every module- / class-level object, not about whatever rows were emitted -/
 theorem unsafe_sites_exactly_over_the_enumeration :
-    (Gen.Alias.sites.all fun s => (!s.safe) == (d31Sites.contains s.name || contractMutators.contains s.name)) = true
+    (Gen.Alias.sites.all fun s => (!s.safe) == contractMutators.contains s.name) = true
       ∧ subAsc reachableKeys scannedOrExempt = true
       ∧ (mutableDefaults.all fun n => defaultSiteSafe n) = true
       ∧ (sharedObjects.all fun o => Gen.Alias.sharedSites.any fun s => s.safe && o.2.any (· == s.name)) = true := by
